@@ -619,8 +619,8 @@ def jobs_for(pid, tier):
                 + both("bulkclone", ["bulk", "clone"], consts={"Vers": [0], "Vals": [0], "MaxExtra": 1})
                 + both("setcore", ["core"], mode="set", consts={"Vers": [0]}) + both("setbc", ["bulk"], mode="set", consts={"MaxExtra": 1, "Vers": [0]})]
                     + [dict(j, sweep="adversarial", max_leaves=(64 if q else 512)) for j in pairs("algadv", ["algebra", "eq"], "set", qcaps[:2] if q else tcaps[:6])], "asan"),
-        "C05": core + both("ecub", ["entry", "cursor", "unchecked", "bulk"], consts={"Vers": [0]}, bigconsts={"MaxExtra": 1}) + setcore
-               + both("setbulk", ["bulk"], mode="set", consts={"MaxExtra": 1}, bigconsts={"Vers": [0]}) + tmap + tset,
+        "C05": core + both("ecubc", ["entry", "cursor", "unchecked", "bulk", "clone"], consts={"Vers": [0]}, bigconsts={"MaxExtra": 1}) + setcore
+               + both("setbc", ["bulk", "clone"], mode="set", consts={"MaxExtra": 1}, bigconsts={"Vers": [0]}) + tmap + tset,
         "C02": shaped(core) + prof(shaped(both("cursor", ["cursor"])), "miri") + both("eubc", ["entry", "unchecked", "bulk", "clone"], consts={"Vers": [0]}, bigconsts={"MaxExtra": 1})
                + setcore + both("setbc", ["bulk", "clone"], mode="set", consts={"MaxExtra": 1}, bigconsts={"Vers": [0]}) + tmap + tset,
         "C03": prof(shaped(core) + both("entry", ["entry"]) + shaped(both("bulk", ["bulk"], bigconsts={"MaxExtra": 1})) + shaped(setcore)
